@@ -42,6 +42,10 @@ def normalise(events):
             out.append(dict(DEF, k="tick", t=e["wakes"]))
             last_kind[e["wakes"]] = "tick"
             continue
+        if k == "spur":
+            out.append(dict(DEF, k="spur", t=e["wakes"]))
+            last_kind[e["wakes"]] = "spur"
+            continue
         if k in SCHED:
             continue
         if k == "end":
@@ -71,7 +75,7 @@ def normalise(events):
         elif k == "fwait":
             n["a"], n["v"], n["ok"] = e["exp"], e["cur"], e["res"] == "block"
         elif k == "fret":
-            n["ok"] = e["res"] == "woken"
+            n["ok"] = e["res"] in ("woken", "spurious")
         elif k == "fwake":
             n["v"] = e["woken"]
         elif k in ("call", "ret"):
@@ -229,7 +233,7 @@ def tlc_behaviours(mc_tla, cfg, num, depth, seed, workdir, lib_dirs=None):
             t = int(re.search(r"\bt \|-> (\d+)", e).group(1))
             if k == "":
                 continue
-            steps.append(-1 if k == "tick" else t)
+            steps.append(-1 if k == "tick" else (-2 - t) if k == "spur" else t)
         out.append((cap, base, "_".join(prog), steps))
     shutil.rmtree(workdir, ignore_errors=True)
     return out
